@@ -42,9 +42,12 @@ func VerifC14_InjectedRuntimeRegistry() {
 		rt.Assert(reg.InjectAsDatabase("rtdb") == nil, "registry/inject")
 	}
 	sets := 0
+	// the provider stores its own version of what it is given
+	var stored *c14rRec
 	push, err := reg.Register("a/", SimpleValueSetterFunc(func(r record.Record) (record.Record, error) {
 		sets++
-		return r, nil
+		stored = c14rNew(r.Key(), r.(*c14rRec).N+100)
+		return stored, nil
 	}))
 	rt.Assert(err == nil, "registry/provider-registered")
 	pushOther, err := reg.Register("b/x", SimpleValueSetterFunc(func(r record.Record) (record.Record, error) { return r, nil }))
@@ -63,6 +66,12 @@ func VerifC14_InjectedRuntimeRegistry() {
 	case 0: // put through an interface
 		rt.Assert(db.Put(c14rNew("rtdb:a/k", 1)) == nil, "registry/put")
 		rt.Assert(sets == 1, "registry/provider-set-called-once")
+		// what is delivered is the record now in the database
+		if len(sub.Feed) == 1 {
+			got := <-sub.Feed
+			rt.Assert(got == record.Record(stored), "registry/delivered-record-is-the-stored-one")
+			sub.Feed <- got
+		}
 	case 1: // pushed by the provider
 		push(c14rNew("rtdb:a/k", 2))
 	case 2: // several records pushed at once: one delivery each
